@@ -220,8 +220,13 @@ func concrete(m string, dataID string, pick int) []byte {
 			ctl(fmt.Sprintf(`{"accessMethods":{"id":"%s"}}`, ids[p[1]])))
 	case "close":
 		ph := map[string]string{"announce": "announce", "confirm": "confirm", "other": "foo"}[p[1]]
+		// maxTime is the ANNOUNCING side's patience; how long the receiving side takes is its own business (500 ms), whatever
+		// the peer writes there
 		return choose(append([]byte{model.MsgTypeEnd}, []byte(fmt.Sprintf(`{"connectionClose":[{"phase":"%s"},{"maxTime":500}]}`, ph))...),
-			ctl(fmt.Sprintf(`{"connectionClose":{"phase":"%s"}}`, ph)))
+			ctl(fmt.Sprintf(`{"connectionClose":{"phase":"%s"}}`, ph)),
+			append([]byte{model.MsgTypeEnd}, []byte(fmt.Sprintf(`{"connectionClose":[{"phase":"%s"},{"maxTime":4294967295}]}`, ph))...),
+			append([]byte{model.MsgTypeEnd}, []byte(fmt.Sprintf(`{"connectionClose":[{"phase":"%s"},{"maxTime":0},{"reason":"bye"}]}`, ph))...),
+			append([]byte{model.MsgTypeEnd}, []byte(fmt.Sprintf(`{"connectionClose":[{"phase":"%s"},{"maxTime":86400000}]}`, ph))...))
 	case "data":
 		return append([]byte{model.MsgTypeData}, []byte(fmt.Sprintf(`{"data":[{"header":[{"protocolId":"ee1.0"}]},{"payload":{"datagram":[{"n":"%s"}]}}]}`, dataID))...)
 	case "databad":
@@ -427,6 +432,7 @@ type endpoint struct {
 	c       *ship.ShipConnection
 	mark    int            // log position at the start of the current step
 	blocked *vh.CallResult // an Inject(close announce) call that is still sleeping
+	annHung bool           // ... and did not return although far more than its 500 ms passed: the receive loop is blocked
 	dead    bool
 	queue   [][]byte // pair: frames in flight to this endpoint; nil entry = end of stream
 	qmu     sync.Mutex
@@ -624,6 +630,7 @@ func runTest(t *test, seed int) (obsTrace, *divergence) {
 					select {
 					case <-e.blocked.Done:
 					case <-time.After(callDeadline):
+						e.annHung = true
 					}
 					acquire()
 					e.blocked = nil
@@ -797,6 +804,9 @@ func runTest(t *test, seed int) (obsTrace, *divergence) {
 			if res != nil && n == a.E {
 				panicked, hung = res.Panicked, res.Hung
 			}
+			if a.A == "Sleep" && e.annHung {
+				hung = true // the handler of the peer's close announce never returned (C08: the receive loop is blocked)
+			}
 			o, real := e.observe(panicked, hung)
 			tr.Steps = append(tr.Steps, obsStep{A: obsAct, E: n, Ob: o})
 			if exp, ok := st.X[n]; ok {
@@ -867,7 +877,16 @@ func runTest(t *test, seed int) (obsTrace, *divergence) {
 			if e.dead {
 				continue
 			}
-			o, _ := e.observe(false, false)
+			stillBlocked := false
+			if e.blocked != nil {
+				select {
+				case <-e.blocked.Done:
+				case <-time.After(callDeadline - 1300*time.Millisecond):
+					stillBlocked = true
+				}
+				e.blocked = nil
+			}
+			o, _ := e.observe(false, stillBlocked)
 			tr.Steps = append(tr.Steps, obsStep{A: act{A: "Sleep", E: "", M: "end", ID: ""}, E: n, Ob: o})
 		}
 	}
